@@ -406,6 +406,7 @@ class Judge:
         self.nontrivial = set()
         self.maxratio_cls = {}
         self.errvec_compared = 0
+        self.f_range_checked = 0
         self.errvec_smaller = []
         self.errvec_larger = []
         self.errvec_ratio = (float("inf"), 0.0)
@@ -502,7 +503,21 @@ class Judge:
                               "mps_fhessenberg determinant returned a non-finite mantissa", self.replay_obj(case, "f", {}))
             else:
                 val = (Fraction(re_) * pow2(ex), Fraction(im_) * pow2(ex))
-                self.check_value(case, "f", val, C_F, U_F)
+                okv = self.check_value(case, "f", val, C_F, U_F)
+                # range of the returned pair (C20_fhess_mantissa, C20_fhess_range with rho = 1 + 2^-50, Emax = 1074):
+                # for n >= 2 the mantissa comes out of a rescaling, |exponent| <= 1074 (n-1); n = 1: exponent 0
+                n = case["n"]
+                m2 = Fraction(re_) ** 2 + Fraction(im_) ** 2
+                self.count("f-exponent:" + ("0" if ex == 0 else "<0" if ex < 0 else "1..50" if ex <= 50 else ">50"))
+                self.f_range_checked += 1
+                bad = (ex != 0) if n == 1 else (m2 > (1 + Fraction(1, 2 ** 50)) ** 2 or abs(ex) > 1074 * (n - 1))
+                if bad and okv and "f-range" not in self.reported:
+                    self.reported.add("f-range")
+                    ctx.violation("correspondence:f-mantissa-exponent-range",
+                                  "mps_fhessenberg determinant returns a pair outside the range proved for the model of the loop "
+                                  "(C20_fhess_mantissa / C20_fhess_range): order %d, |mantissa|^2 = %.17g, exponent %d; the value "
+                                  "mantissa * 2^exponent is within the bound" % (n, float(m2), ex),
+                                  self.replay_obj(case, "f", {"mantissa": [re_, im_], "exponent": ex}), no_input=True)
         if "d" in variants and "d" in r:
             mr, er, mi, ei = r["d"]
             if not (math.isfinite(mr) and math.isfinite(mi)):
@@ -654,6 +669,7 @@ def run(ctx):
         "m_error_vector": {"compared_with_model": judge.errvec_compared, "smaller_than_model": len(judge.errvec_smaller),
                            "larger_than_model": len(judge.errvec_larger), "tolerance": "1e-6 relative, both directions",
                            "returned_over_model_min_max": list(judge.errvec_ratio)},
+        "f_mantissa_exponent_range_checked": judge.f_range_checked,
         "d_variant_values_from_padded_run": getattr(judge, "padded_d", None),
         "constants": {"C_f": C_F, "C_d": C_D, "C_m": C_M, "u_f": "2^-53", "u_d": "2^-52", "u_m": "2^(1-wp)",
                       "bound": "gamma(C n, u) * B, B = recurrence on moduli (rounded up at 2^-%d)" % K_MOD},
